@@ -155,6 +155,7 @@ class Session:
                 raise Clause({"crash", "state", "reply", "callback"}, "rejected_line_has_effect", f"rejected line {text!r} changed {diff_keys(before, after)} sent={step.sent} callbacks={len(step.callbacks)}")
             return step
         exp = model.inbound(fields)
+        self.labels.update(exp.labels)
         if exp.malformed_fw and model.nodes[fields[0]].ota != {"idle"}:
             self.labels.add("ota-malformed-live")
         self._resolve_id(exp, fields)
